@@ -26,6 +26,9 @@ func init() {
 	register("C14", "model_checking", C14)
 	workers["c14"] = c14Worker
 	Replayers["C14"] = func(raw []byte) string {
+		if out, ok := replayForeign(raw, "C14"); ok {
+			return out
+		}
 		var c struct {
 			Scenario string   `json:"scenario"`
 			Indices  []uint16 `json:"indices"`
@@ -373,6 +376,26 @@ func C14(r *ev.Run) {
 		}
 		tblOK++
 	}
+	// tables written by other tools (entry arrays of other sizes than the library's own 128 slots): read, then written back
+	var frn, frnOK int64
+	for _, fc := range enumForeign(r.Quick()) {
+		fc := fc
+		if fc.Mod != "none" {
+			continue
+		}
+		res := runForeignCase(&fc)
+		if res.Outcome != "ok" {
+			continue
+		}
+		frn++
+		if res.C14Sig != "" {
+			r.Report(res.C14Sig, res.C14Msg, map[string]any{"foreign": fc})
+			continue
+		}
+		frnOK++
+	}
+	r.Set("foreign_table_cases_rewritten", frn)
+	r.Set("foreign_table_cases_identical", frnOK)
 	r.Set("states", states)
 	r.Set("transitions", transitions*3)
 	r.Set("traces_validated_against_impl", transitions*3)
